@@ -221,3 +221,24 @@ def service(seed, tier):
     g.add([{"do": "svc.start"}, {"do": "wait", "ms": 20}, {"do": "svc.stop", "clear": True}, {"do": "svc.start"}, {"do": "wait", "ms": 20}, {"do": "b.mode", "mode": "manual"},
            {"do": "svc.publish", "msg": {"topic": "a", "q": 1, "m": "S#1"}}, {"do": "b.cut"}, {"do": "b.mode", "mode": "auto"}, {"do": "wait", "ms": 50}, {"do": "svc.stop", "clear": False}], clean=False)
     return g.scripts
+
+
+def service_order(seed, tier):
+    """C15 (service half): more commands than the command queue holds, issued by ONE goroutine while the service is not yet online:
+    they must be carried out in the order issued"""
+    g = CGen("service-order", seed, 15500)
+    rng = g.rng
+    for k in range(8 if tier == "quick" else 30):
+        qs = rng.choice([1, 2, 3])
+        n = qs + rng.randint(3, 8)
+        steps = [{"do": "wait", "th": 0, "ms": rng.choice([5, 15, 25])}, {"do": "svc.start", "th": 0}]
+        for i in range(n):
+            r = rng.random()
+            if r < 0.7:
+                steps.append({"do": "svc.publish", "th": 1, "msg": {"topic": "a", "q": rng.choice([0, 0, 1, 2]), "m": "S#%d" % (i + 1)}})
+            elif r < 0.85:
+                steps.append({"do": "svc.subscribe", "th": 1, "subs": [[rng.choice(["a", "b", "c/d"]), rng.randint(0, 2)]]})
+            else:
+                steps.append({"do": "svc.unsubscribe", "th": 1, "topics": [rng.choice(["a", "b"])]})
+        g.add(steps, mode="concurrent", clean=rng.random() < 0.5, queuesize=qs)
+    return g.scripts
